@@ -640,3 +640,112 @@ Proof.
   - intros files Hnd. exists (all_msgs n files). split; [apply send_all_spec|]. split; [reflexivity|].
     split; [apply (load_files n files [] Hn Hnd)|]. unfold loader_dir. simpl. apply app_nil_r.
 Qed.
+
+(* ================================================================ reads are not log entries
+   What a replica does besides applying the log: Get (5 comparison types, with or without the value), List,
+   RangeScan, notification reads, ReadCommitOffset, ReadTerm, the three secondary-index reads.  In the model
+   none of them has a state output: [db_read] maps a state and a request to an answer.  Taking a snapshot and
+   flushing read [persist st] / change nothing of what the model calls state. *)
+Inductive read_req :=
+| RGet (k : key) (c : cmp_type) (include_value : bool)
+| RList (start_ end_ : key)
+| RRangeScan (start_ end_ : key)
+| RNotifications (from : Z)
+| RCommitOffset
+| RTerm
+| RSecondaryGet (name k : bytes) (c : cmp_type) (include_value : bool)
+| RSecondaryList (name start_ end_ : bytes)
+| RSecondaryRangeScan (name start_ end_ : bytes).
+
+Inductive read_ans :=
+| AGet (r : result get_resp)
+| AList (l : list key)
+| ARangeScan (r : result (list (key * entry)))
+| ANotifications (r : result (list nbatch))
+| ACommitOffset (r : result Z)
+| ATerm (r : result (Z * bool))
+| ASecondaryList (r : result (list key))
+| ASecondaryRangeScan (r : result (list get_resp)).
+
+Definition db_read (st : state) (r : read_req) : read_ans :=
+  match r with
+  | RGet k c iv => AGet (db_get st k c iv)
+  | RList s e => AList (db_list st s e)
+  | RRangeScan s e => ARangeScan (db_range_scan st s e)
+  | RNotifications from => ANotifications (read_next_notifications st from)
+  | RCommitOffset => ACommitOffset (read_commit_offset st)
+  | RTerm => ATerm (read_term st)
+  | RSecondaryGet n k c iv => AGet (secondary_get st n k c iv)
+  | RSecondaryList n s e => ASecondaryList (secondary_list st n s e)
+  | RSecondaryRangeScan n s e => ASecondaryRangeScan (secondary_range_scan st n s e)
+  end.
+
+(* one replica's schedule: log entries interleaved, in any way, with reads served by that replica only *)
+Definition replica_op := (log_entry + read_req)%type.
+
+Definition writes_of (ops : list replica_op) : list log_entry :=
+  flat_map (fun op => match op with inl e => [e] | inr _ => [] end) ops.
+
+Section ReadsInterleaved.
+  Variable pw : state -> write_req -> Z -> N -> state * result write_resp.
+
+  (* the state after the schedule, the responses to its writes, the answers to its reads *)
+  Fixpoint run_ops (st : state) (ops : list replica_op) : state * list (result write_resp) * list read_ans :=
+    match ops with
+    | [] => (st, [], [])
+    | inl e :: tl =>
+        let '(st1, res) := pw st (le_req e) (le_offset e) (le_ts e) in
+        let '(st2, rs, as_) := run_ops st1 tl in
+        (st2, res :: rs, as_)
+    | inr r :: tl =>
+        let '(st2, rs, as_) := run_ops st tl in
+        (st2, rs, db_read st r :: as_)          (* the state goes on unchanged *)
+    end.
+
+  (* the answers a replica that applied the log ALONE gives at the same points of the log *)
+  Fixpoint answers_of_log_alone (st : state) (ops : list replica_op) : list read_ans :=
+    match ops with
+    | [] => []
+    | inl e :: tl => answers_of_log_alone (fst (pw st (le_req e) (le_offset e) (le_ts e))) tl
+    | inr r :: tl => db_read st r :: answers_of_log_alone st tl
+    end.
+
+  (* For every schedule: the replica that also served the reads ends in exactly the state of the replica that
+     applied the log alone (all four components, not only the observable ones), gave the same responses to
+     the writes, and every read was answered from the state "log prefix applied so far". *)
+  Theorem reads_do_not_change_state ops : forall st,
+    fst (fst (run_ops st ops)) = apply_log pw st (writes_of ops) /\
+    snd (fst (run_ops st ops)) = log_responses pw st (writes_of ops) /\
+    snd (run_ops st ops) = answers_of_log_alone st ops.
+  Proof.
+    induction ops as [|[e|r] tl IH]; intro st; [repeat split| |].
+    - cbn [run_ops writes_of flat_map app apply_log log_responses answers_of_log_alone].
+      fold (writes_of tl).
+      destruct (pw st (le_req e) (le_offset e) (le_ts e)) as [st1 res] eqn:P. cbn [fst snd].
+      specialize (IH st1). destruct (run_ops st1 tl) as [[st2 rs] as_]. cbn [fst snd] in *.
+      destruct IH as [H1 [H2 H3]]. repeat split; congruence.
+    - cbn [run_ops writes_of flat_map app answers_of_log_alone]. fold (writes_of tl).
+      specialize (IH st). destruct (run_ops st tl) as [[st2 rs] as_]. cbn [fst snd] in *.
+      destruct IH as [H1 [H2 H3]]. repeat split; congruence.
+  Qed.
+End ReadsInterleaved.
+
+Definition run_ops_db cb cfg := run_ops (process_write cb cfg).
+
+Theorem reads_do_not_change_state_db cb cfg ops st :
+  fst (fst (run_ops_db cb cfg st ops)) = apply_log_db cb cfg st (writes_of ops) /\
+  snd (fst (run_ops_db cb cfg st ops)) = log_responses_db cb cfg st (writes_of ops) /\
+  snd (run_ops_db cb cfg st ops) = answers_of_log_alone (process_write cb cfg) st ops.
+Proof. apply reads_do_not_change_state. Qed.
+
+(* non-trivial instance: metadata-only gets, a list and an index get between the entries of c06_ex_log *)
+Example reads_interleaved_example :
+  let ops := [inl (nth 0 c06_ex_log (c06_plain_put [], 0%Z, 0%N)); inr (RGet c06_ex_session_key CEqual false);
+              inl (nth 1 c06_ex_log (c06_plain_put [], 0%Z, 0%N)); inr (RGet c06_key_a CEqual false);
+              inr (RSecondaryGet [105%N] [107%N] CEqual false); inr (RList [] []);
+              inl (nth 2 c06_ex_log (c06_plain_put [], 0%Z, 0%N))] in
+  writes_of ops = firstn 3 c06_ex_log /\
+  length (snd (run_ops_db wrapper_callbacks c06_cfg init_state ops)) = 4%nat /\
+  fst (fst (run_ops_db wrapper_callbacks c06_cfg init_state ops)) =
+    apply_log_db wrapper_callbacks c06_cfg init_state (firstn 3 c06_ex_log).
+Proof. vm_compute. repeat split. Qed.
